@@ -4,9 +4,12 @@
 (* either in line or a reference to the in-line copy inside an EARLIER place ("out of line").  Reading such a value jumps   *)
 (* to the referenced place and has to come back to the entry behind the reference before the next key is read.             *)
 (* Calls: seek_kv(set) / read_key / read_value - and read_all(set) = seek + count x (key, value).  A walk may be abandoned  *)
-(* at any point (after a key, after a value); the next seek starts from scratch.                                            *)
+(* at any point (after a key, after a value); the next seek starts from scratch.  A descriptor lookup get_desc(other set)  *)
+(* may come between any two calls of a walk: it reads the id table through a reader of its own and leaves the key/value    *)
+(* cursor alone.  EVERY key and value a walk returns is what a fresh reader returns for that set - not only the last read. *)
 EXTENDS Naturals, Sequences, FiniteSets, TLC, Json
 CONSTANTS Emit, MaxWalks,
+          DescSharesCursor,   \* deviation: get_desc() goes through the key/value meta reader, so a lookup in the middle of a walk moves the cursor
           ReturnMode      \* "eager" (as built: read_value seeks back at once) | deviation "lazy": the way back is remembered and taken by the
                           \* next read_key - and survives a seek_kv
 
@@ -19,18 +22,23 @@ Image == << <<E("a", "L"), E("b", "s")>>,                 \* set 1: the in-line 
 Sets == 1..Len(Image)
 Flat(s, p) == <<s, p>>
 Next1(pos) == <<pos[1], pos[2] + 1>>                      \* the entry behind pos (may be one past the end of the set: the next set's first entry on disk)
-At(pos) == IF pos[2] <= Len(Image[pos[1]]) THEN Image[pos[1]][pos[2]]
+Junk == [k |-> "junk", v |-> "junk", ref |-> <<0, 0>>]
+At(pos) == IF pos[1] = 0 THEN Junk                                          \* somewhere in the id table
+           ELSE IF pos[2] <= Len(Image[pos[1]]) THEN Image[pos[1]][pos[2]]
            ELSE IF pos[1] < Len(Image) THEN Image[pos[1] + 1][1]          \* the key/value area is contiguous
            ELSE [k |-> "end", v |-> "end", ref |-> <<0, 0>>]
 
 (* a walk: seek set s, n complete pairs, then possibly one more key without its value *)
-Walks == [s : Sets, n : 0..2, k : BOOLEAN]
+Walks == [s : Sets, n : 0..2, k : BOOLEAN, d : 0..3]          \* d: a get_desc call behind the seek (1), the first key (2), the first value (3); 0 = none
 VARIABLES prog, final, pc, cur, pending, step, out, lastkey
 vars == <<prog, final, pc, cur, pending, step, out, lastkey>>
 (* step: position inside the current walk: <<"seek">>, <<"key", i>>, <<"val", i>> ... flattened into a list of calls *)
-Calls(w) == <<<<"seek", w.s>>>> \o
-            [i \in 1..(2 * (IF w.n > Len(Image[w.s]) THEN Len(Image[w.s]) ELSE w.n)) |-> IF i % 2 = 1 THEN <<"key", 0>> ELSE <<"val", 0>>] \o
-            (IF w.k /\ w.n < Len(Image[w.s]) THEN <<<<"key", 0>>>> ELSE <<>>)
+KVCalls(w) == [i \in 1..(2 * (IF w.n > Len(Image[w.s]) THEN Len(Image[w.s]) ELSE w.n)) |-> IF i % 2 = 1 THEN <<"key", 0>> ELSE <<"val", 0>>] \o
+              (IF w.k /\ w.n < Len(Image[w.s]) THEN <<<<"key", 0>>>> ELSE <<>>)
+WithDesc(w) == LET kv == KVCalls(w) IN
+               IF w.d = 0 \/ w.d - 1 > Len(kv) THEN kv
+               ELSE SubSeq(kv, 1, w.d - 1) \o <<<<"desc", (w.s % Len(Image)) + 1>>>> \o SubSeq(kv, w.d, Len(kv))
+Calls(w) == <<<<"seek", w.s>>>> \o WithDesc(w)
 AllCalls(s) == <<<<"seek", s>>>> \o [i \in 1..(2 * Len(Image[s])) |-> IF i % 2 = 1 THEN <<"key", 0>> ELSE <<"val", 0>>]
 RECURSIVE Concat(_)
 Concat(ss) == IF ss = <<>> THEN <<>> ELSE Head(ss) \o Concat(Tail(ss))
@@ -43,15 +51,17 @@ Init == /\ \E n \in 0..MaxWalks : prog \in [1..n -> Walks]
 
 Do == /\ pc <= Len(Script)
       /\ LET c == Script[pc] IN
-         CASE c[1] = "seek" -> /\ cur' = <<c[2], 1>>
+         CASE c[1] = "desc" -> /\ cur' = IF DescSharesCursor THEN <<0, c[2]>> ELSE cur
+                               /\ UNCHANGED <<pending, out, lastkey>>
+           [] c[1] = "seek" -> /\ cur' = <<c[2], 1>>
                                /\ pending' = pending                          \* as built there is nothing pending; the deviation forgets to clear it here
                                /\ out' = out /\ lastkey' = lastkey
            [] c[1] = "key" ->  LET from == IF pending # <<0, 0>> THEN pending ELSE cur IN
-                               /\ out' = IF pc > FinalStart THEN Append(out, At(from).k) ELSE out
+                               /\ out' = Append(out, At(from).k)
                                /\ lastkey' = from /\ cur' = from /\ pending' = <<0, 0>>
            [] OTHER ->         LET e == At(lastkey)
-                                   v == IF e.ref = <<0, 0>> THEN e.v ELSE At(e.ref).v
-                               IN /\ out' = IF pc > FinalStart THEN Append(out, v) ELSE out
+                                   v == IF cur[1] = 0 THEN "junk" ELSE IF e.ref = <<0, 0>> THEN e.v ELSE At(e.ref).v
+                               IN /\ out' = Append(out, v)
                                   /\ IF e.ref # <<0, 0>> /\ ReturnMode = "lazy"
                                      THEN cur' = Next1(e.ref) /\ pending' = Next1(lastkey)       \* stays behind the referenced value until the next key
                                      ELSE cur' = Next1(lastkey) /\ pending' = <<0, 0>>
@@ -62,7 +72,8 @@ Next == Do \/ (pc > Len(Script) /\ UNCHANGED vars)
 Spec == Init /\ [][Next]_vars
 
 Want(s) == Concat([p \in 1..Len(Image[s]) |-> <<Image[s][p].k, Image[s][p].v>>])
-HistoryFree == pc > Len(Script) => out = Want(final)
+WalkWant(w) == SubSeq(Want(w.s), 1, Len(KVCalls(w)))
+HistoryFree == pc > Len(Script) => out = Concat([i \in 1..Len(prog) |-> WalkWant(prog[i])]) \o Want(final)
 NothingPendingAtSeek == (pc <= Len(Script) /\ Script[pc][1] = "seek") => pending = <<0, 0>>
 EmitOK == (Emit /\ pc > Len(Script)) => PrintT(<<"RESULT", ToJson([prog |-> prog, final |-> final])>>)
 =============================================================================
